@@ -3,12 +3,20 @@ import asyncio
 import dataclasses
 import json
 
-from xknx.dpt import DPTBase
+from harness import dptlib as D
+from xknx.dpt import DPTArray, DPTBase, DPTBinary
+from xknx.exceptions import ConversionError, CouldNotParseTelegram
 from xknx.mcp import tools
-from xknx.mcp.types import DptFilter
+from xknx.mcp.types import DecodeDptPayloadInput, DptFilter, EncodeDptPayloadInput
 
 PROPERTY = "C45"
-RULE = ("paginate: exhaustive n in 0..8 x limit in -2..10 x offset in -10..10 through _paginate; list: generated filters (main numbers "
+MODULES = ["XknxVerif.Props.C45", "XknxVerif.Props.C45Codec"]
+NAMESPACES = ["XknxVerif.Props.C45"]
+DRIVE_PROCS = 4
+CASE_TIMEOUT = 30.0
+RULE = ("codec: every DPT class x {all 64 six-bit values, all 256 one-octet arrays, edge + random 2-octet arrays, base/random arrays of the "
+        "class's own length, wrong lengths} through decode_dpt_payload -> json.dumps/loads of the result -> encode_dpt_payload -> "
+        "decode_dpt_payload (real tools), compared token by token with the Lean MCP codec model; paginate: exhaustive n in 0..8 x limit in -2..10 x offset in -10..10 through _paginate; list: generated filters (main numbers "
         "present/absent, needles cut from real value types/units/numbers in mixed case) x page sizes {1,2,3,7,50,230,1000,-1} x offsets; "
         "walk: client following next_offset from 0 to exhaustion for every generated filter and page size >= 1 and -1, compared with an "
         "independent naive scan of the class tree; every tool result is passed through json.dumps(dataclasses.asdict(result)) with no custom "
@@ -45,7 +53,28 @@ def hexs(s):
     return "none" if s is None else ("-" if s == "" else "".join(f"{ord(c):02x}" for c in s))
 
 
+def _rand_hex(rng, ln, n):
+    return [bytes(rng.randrange(256) for _ in range(ln)).hex() or "-" for _ in range(n)]
+
+
+def codec_cases(rng, tier):
+    """decode_dpt_payload -> JSON value -> encode_dpt_payload -> decode_dpt_payload, for every DPT class."""
+    nrand = 12 if tier == "quick" else 400
+    for cls in D.CLASSES:
+        name, L = cls.__name__, cls.payload_length
+        yield {"op": f"mcp rt {name} b0-63"}
+        yield {"op": f"mcp rt {name} a0:0-0"}
+        yield {"op": f"mcp rt {name} a1:0-255"}
+        edge = ["0000", "0001", "00ff", "0100", "7fff", "8000", "ff00", "fffe", "ffff", "0c1a", "8c1a", "7ffe"]
+        yield {"op": f"mcp rt {name} x" + ",".join(edge + _rand_hex(rng, 2, nrand))}
+        if D.kind(cls) == "a" and L >= 3:
+            base = [bytes(L).hex(), (bytes([0xFF]) * L).hex()]
+            yield {"op": f"mcp rt {name} x" + ",".join(base + _rand_hex(rng, L, 3 * nrand))}
+        yield {"op": f"mcp rt {name} x" + ",".join(_rand_hex(rng, 3, 2) + _rand_hex(rng, 5, 2) + _rand_hex(rng, 15, 1))}
+
+
 def generate(rng, tier):
+    yield from codec_cases(rng, tier)
     for n in range(0, 9):
         for lim in range(-2, 11):
             for off in range(-10, 11):
@@ -78,8 +107,103 @@ def call_list(main, needle, lim, off):
     return res
 
 
+_VT = {}
+
+
+def value_type_of(cls):
+    """a value_type string the tools resolve to exactly this class (DPT number, else its value-type name)"""
+    if cls not in _VT:
+        vt = None
+        for cand in (cls.dpt_number_str(), cls.value_type):
+            try:
+                if cand and DPTBase.get_dpt(cand) is cls:
+                    vt = cand
+                    break
+            except ValueError:
+                pass
+        _VT[cls] = vt
+    return _VT[cls]
+
+
+def _call(coro):
+    return _loop.run_until_complete(coro)
+
+
+def _decode_tool(vt, payload):
+    """-> ('ok', json value) | ('r', None) | ('other:<Exc>', None) | ('notjson:<Exc>', None)"""
+    try:
+        res = _call(tools.decode_dpt_payload(DecodeDptPayloadInput(value_type=vt, payload=payload)))
+    except (ConversionError, CouldNotParseTelegram):
+        return "r", None
+    except Exception as e:  # noqa: BLE001
+        return f"other:{type(e).__name__}", None
+    try:
+        return "ok", json.loads(json.dumps(dataclasses.asdict(res)))["value"]
+    except (TypeError, ValueError) as e:
+        return f"notjson:{type(e).__name__}", None
+
+
+def mcp_roundtrip(cls, vt, k, data):
+    nan32 = D.FAM[cls.__name__] == "f32"
+    st, j = _decode_tool(vt, data if k == "b" else list(data))
+    if st != "ok":
+        return st, (None if st in ("r", "other:ValueError") else f"decode_dpt_payload: {st}")
+    cj = D.canon(j)
+    try:
+        enc = _call(tools.encode_dpt_payload(EncodeDptPayloadInput(value_type=vt, value=j)))
+        enc = json.loads(json.dumps(dataclasses.asdict(enc)))["payload"]
+    except ConversionError:
+        return f"{cj}>conv", f"decoded value {j!r} is refused by encode_dpt_payload"
+    except Exception as e:  # noqa: BLE001
+        return f"{cj}>other:{type(e).__name__}", f"encode_dpt_payload({j!r}) raised {type(e).__name__}"
+    p2 = DPTBinary(enc) if isinstance(enc, int) else DPTArray(tuple(enc))
+    cp2 = D.payload_canon(p2, nan32)
+    st2, j2 = _decode_tool(vt, enc)
+    if st2 != "ok":
+        return f"{cj}>{cp2}>{'parse' if st2 == 'r' else st2}", f"value {j!r} encodes to {cp2} which decode_dpt_payload refuses ({st2})"
+    cj2 = D.canon(j2)
+    if cj2 == cj:
+        return cj, None
+    tok = f"{cj}>{cp2}>{cj2}"
+    # documented replacement of text types: undecodable bytes come back as '?'
+    if isinstance(j, str) and isinstance(j2, str) and j.replace("\ufffd", "?") == j2:
+        return tok, None
+    return tok, f"value {j!r} encodes to {cp2}, which decodes to {j2!r}"
+
+
+def run_codec(case):
+    _, _op, name, spec = case["op"].split(" ")
+    cls = D.BY_NAME[name]
+    vt = value_type_of(cls)
+    if vt is None:
+        _codec_stats["unresolvable"].add(name)
+        return {"out": "skip-unresolvable", "line": None}
+    toks, first = [], None
+    for k, data in D.expand(spec):
+        tok, bad = mcp_roundtrip(cls, vt, k, data)
+        toks.append(tok)
+        if bad and first is None:
+            first = (D.spec_single(k, data), bad)
+    _codec_stats["payloads"] += len(toks)
+    _codec_stats["accepted"] += sum(1 for t in toks if t != "r" and not t.startswith("other:ValueError"))
+    r = D.rle(toks)
+    if first:
+        return {"out": f"{r} !{first[0]} !{first[1]}", "expect": r}
+    return {"out": r, "expect": r}
+
+
+_codec_stats = {"payloads": 0, "accepted": 0, "unresolvable": set()}
+
+
+def evidence_extra():
+    return {"codec_payloads": _codec_stats["payloads"], "codec_accepted": _codec_stats["accepted"],
+            "classes_without_unique_value_type": sorted(_codec_stats["unresolvable"])}
+
+
 def run_impl(case):
     t = case["op"].split()
+    if t[0] == "mcp":
+        return run_codec(case)
     if t[1] == "paginate":
         n, lim, off = int(t[2]), int(t[3]), int(t[4])
         w, r = tools._paginate(list(range(n)), lim, off)
@@ -129,6 +253,11 @@ def naive_matches(main, needle):
 
 def oracle(case, out):
     t = case["op"].split()
+    if t[0] == "mcp":
+        if " !" in out:
+            _, first, why = out.split(" !", 2)
+            return f"{t[2]}: payload {first}: {why}"
+        return None
     if out.startswith("notjson"):
         return f"tool result is not serialisable by the standard JSON encoder: {out}"
     if t[1] == "walk":
@@ -147,4 +276,15 @@ def oracle(case, out):
 
 
 def nontrivial(case, out):
+    if case["op"].startswith("mcp"):
+        return not all(x.startswith("r*") for x in out.split(" !")[0].split(","))
     return not out.startswith("- ")
+
+
+def shrink(case, msg):
+    if case["op"].startswith("mcp"):
+        res = run_impl(case)
+        if " !" in res["out"]:
+            first = res["out"].split(" !")[1]
+            return {"op": " ".join(case["op"].split(" ")[:3] + [first])}
+    return case
